@@ -400,6 +400,22 @@ def from_uint(t, hi):
     if v is not None:
         return BStr.lit(str(v))
     nd = len(str(hi))
+    if hi <= 512:
+        # small range: a table (one-hot selection of constant strings) instead of division circuits
+        w0 = t.size()
+        sel = [Eq(t, bv(val, w0)) for val in range(hi + 1)]
+        chars = []
+        for j in range(nd):
+            acc = Z8
+            for val in range(hi + 1):
+                sv = str(val)
+                if j < len(sv):
+                    acc = BvOr(acc, Ite(sel[val], bv(ord(sv[j]), 8), Z8))
+            chars.append(acc)
+        n = L(0)
+        for val in range(hi + 1):
+            n = BvOr(n, Ite(sel[val], L(len(str(val))), L(0)))
+        return BStr(n, chars)
     w = max(_bits_for(hi), 4) + 1
     x = ZeroExt(t, w)
     digs = []  # most significant first
